@@ -1,6 +1,665 @@
-//! C16 monitor (not built yet)
-use vcore::{Args, Report};
+//! C16 — no wake-up is ever lost.
+//!
+//! Probe-poll oracle.  A *schedule* is a sequence of events over one fresh instance of a
+//! waiter/notifier protocol of the real crates:
+//!
+//! * `p<w>`  waiter `w` polls (only if it is runnable: never polled, last poll `Ready`, mid-poll,
+//!           or asleep *and* its counting waker was invoked since it went to sleep; an asleep,
+//!           un-woken task does not run, so the event is skipped),
+//! * `s<w>`  schedule-declared spurious re-poll (polls even if asleep and un-woken; legal in Rust),
+//! * `d<w>`  the waiter's current future is dropped and replaced (same task, same waker),
+//! * `n<op>` a notifier operation of the protocol's *legal* grammar.
+//!
+//! After every notifier operation that closes/fails the object every waiter that was asleep and
+//! un-woken must have had its waker invoked (`C16.close-no-wake:<protocol>`).  When the schedule is
+//! over, runnable waiters are run to quiescence (they would run anyway) and then every waiter that is
+//! asleep and whose waker was not invoked since its last `Pending` is polled once more: `Ready`
+//! means the implementation itself says the condition holds although nobody is going to wake the
+//! task (`C16.lost-wakeup:<protocol>`).  No model of the condition is involved.
+//!
+//! Legs: `sched` (default; exhaustive small schedules + random long ones, single thread, operation
+//! granularity) and `--leg threads` (waiter and notifier on two OS threads for the lock-free
+//! `AntiAmplifier` and for `SendWaker`).
+use std::{
+    collections::HashSet,
+    sync::{
+        Arc,
+        atomic::{AtomicUsize, Ordering::SeqCst},
+    },
+    task::{Context, Wake, Waker},
+};
 
-pub fn run(_args: &Args, rep: &mut Report) {
-    rep.inconclusive("monitor not built yet");
+use serde_json::{Value, json};
+use vcore::{Args, Report, Rng};
+
+#[path = "c16_qbase.rs"]
+mod qb;
+#[path = "c16_streams.rs"]
+mod st;
+#[path = "c16_threads.rs"]
+pub mod th;
+
+// ------------------------------------------------------------------------------------------------
+// protocol interface
+// ------------------------------------------------------------------------------------------------
+
+/// Result of one micro-step of a waiter's poll.
+pub enum Polled {
+    /// the task goes to sleep (its waker is supposed to be registered)
+    Pending,
+    /// the logical operation completed (tag only for traces / state hashing)
+    Ready(String),
+    /// the poll is a multi-step check-then-register sequence and is not finished yet
+    Continue,
+}
+
+/// What a notifier operation did.
+pub enum Applied {
+    /// precondition of the op does not hold in this state: nothing was called
+    Noop,
+    Done,
+    /// the op closed / failed / invalidated the object for the waiters in the mask
+    Closed(u8),
+}
+
+pub struct OpDef {
+    pub name: &'static str,
+}
+
+pub trait Sys {
+    fn step(&mut self, w: usize, cx: &mut Context<'_>) -> Polled;
+    /// forget the state of waiter `w`'s current logical operation (future dropped / completed)
+    fn restart(&mut self, _w: usize) {}
+    fn apply(&mut self, op: usize) -> Applied;
+    /// Only for protocols whose *whole* condition lives inside the notification mechanism itself
+    /// (bare `SendWaker`: "an awaited signal was raised since the wait began"), where a notifier that
+    /// drops the notification altogether leaves nothing a probe poll could find: the harness' own
+    /// statement of the condition for waiter `w`.  `None` everywhere else.
+    fn model_satisfied(&self, _w: usize) -> Option<bool> {
+        None
+    }
+}
+
+pub struct ProtoDef {
+    pub name: &'static str,
+    pub max_waiters: usize,
+    pub ops: &'static [OpDef],
+    /// legal notifier grammar: may `next` follow the notifier ops `done` (indices into `ops`)?
+    pub legal: fn(done: &[u8], next: u8) -> bool,
+    pub make: fn(def: &'static ProtoDef, nw: usize) -> Result<Box<dyn Sys>, String>,
+    /// include the `d` (drop and replace the future) event in the exhaustive alphabet
+    pub drop_in_exhaustive: bool,
+    pub variant: u32,
+}
+
+pub fn any_order(_done: &[u8], _next: u8) -> bool {
+    true
+}
+
+pub const fn op(name: &'static str) -> OpDef {
+    OpDef { name }
+}
+
+pub fn all_protocols() -> Vec<&'static ProtoDef> {
+    let mut v: Vec<&'static ProtoDef> = vec![];
+    v.extend(qb::PROTOS.iter());
+    v.extend(st::PROTOS.iter());
+    v
+}
+
+// ------------------------------------------------------------------------------------------------
+// schedules
+// ------------------------------------------------------------------------------------------------
+
+#[derive(Clone, Copy, PartialEq, Eq, Debug, Hash)]
+pub enum Ev {
+    P(u8),
+    S(u8),
+    D(u8),
+    N(u8),
+}
+
+fn ev_to_json(def: &ProtoDef, e: &Ev) -> Value {
+    match *e {
+        Ev::P(w) => json!(["p", w]),
+        Ev::S(w) => json!(["s", w]),
+        Ev::D(w) => json!(["d", w]),
+        Ev::N(o) => json!(["n", def.ops[o as usize].name]),
+    }
+}
+
+fn ev_from_json(def: &ProtoDef, v: &Value) -> Option<Ev> {
+    let k = v[0].as_str()?;
+    Some(match k {
+        "p" => Ev::P(v[1].as_u64()? as u8),
+        "s" => Ev::S(v[1].as_u64()? as u8),
+        "d" => Ev::D(v[1].as_u64()? as u8),
+        "n" => {
+            let name = v[1].as_str()?;
+            Ev::N(def.ops.iter().position(|o| o.name == name)? as u8)
+        }
+        _ => return None,
+    })
+}
+
+pub struct CountWaker {
+    pub count: AtomicUsize,
+}
+
+impl Wake for CountWaker {
+    fn wake(self: Arc<Self>) {
+        self.count.fetch_add(1, SeqCst);
+    }
+    fn wake_by_ref(self: &Arc<Self>) {
+        self.count.fetch_add(1, SeqCst);
+    }
+}
+
+#[derive(Clone, Copy, PartialEq, Eq, Debug)]
+enum Mode {
+    /// no logical operation in progress (never polled, completed or dropped)
+    Fresh,
+    /// in the middle of a multi-step poll
+    Running,
+    /// last poll returned Pending
+    Asleep,
+}
+
+struct Waiter {
+    cw: Arc<CountWaker>,
+    waker: Waker,
+    mode: Mode,
+    /// wake count when it went to sleep
+    seen: usize,
+}
+
+impl Waiter {
+    fn new() -> Self {
+        let cw = Arc::new(CountWaker { count: AtomicUsize::new(0) });
+        Waiter { waker: Waker::from(cw.clone()), cw, mode: Mode::Fresh, seen: 0 }
+    }
+    fn count(&self) -> usize {
+        self.cw.count.load(SeqCst)
+    }
+    fn asleep_unwoken(&self) -> bool {
+        self.mode == Mode::Asleep && self.count() == self.seen
+    }
+}
+
+#[derive(Default)]
+pub struct Outcome {
+    /// (clause, human text, number of leading events needed to reproduce it)
+    pub violations: Vec<(&'static str, String, usize)>,
+    pub trace: String,
+    pub pending_polls: u64,
+    pub ready_polls: u64,
+    pub skipped_polls: u64,
+    pub spurious_polls: u64,
+    pub wakes: u64,
+    pub ops_applied: u64,
+    pub ops_noop: u64,
+    pub close_checks: u64,
+    pub probes: u64,
+    pub probes_pending: u64,
+    pub woken_then_ready: u64,
+    pub woken_then_pending: u64,
+    pub settle_steps: u64,
+    /// a waiter slept and a notifier op was applied afterwards
+    pub nontrivial: bool,
+    pub harness: Option<String>,
+}
+
+const STEP_CAP: usize = 12;
+
+/// run micro-steps of waiter `w` until Pending or Ready
+fn run_poll(sys: &mut dyn Sys, ws: &mut [Waiter], w: usize, out: &mut Outcome, label: &str) -> Option<bool> {
+    for _ in 0..STEP_CAP {
+        let waker = ws[w].waker.clone();
+        let mut cx = Context::from_waker(&waker);
+        let before = ws[w].count();
+        match sys.step(w, &mut cx) {
+            Polled::Pending => {
+                // a wake issued *during* the poll (self-wake) counts as a wake after registration
+                ws[w].mode = Mode::Asleep;
+                ws[w].seen = before;
+                out.pending_polls += 1;
+                out.trace.push_str(&format!("{label}{w}:P "));
+                return Some(false);
+            }
+            Polled::Ready(tag) => {
+                ws[w].mode = Mode::Fresh;
+                sys.restart(w);
+                out.ready_polls += 1;
+                out.trace.push_str(&format!("{label}{w}:R({tag}) "));
+                return Some(true);
+            }
+            Polled::Continue => {
+                ws[w].mode = Mode::Running;
+                out.trace.push_str(&format!("{label}{w}:c "));
+            }
+        }
+    }
+    None
+}
+
+fn one_step(sys: &mut dyn Sys, ws: &mut [Waiter], w: usize, out: &mut Outcome, label: &str) {
+    let waker = ws[w].waker.clone();
+    let mut cx = Context::from_waker(&waker);
+    let before = ws[w].count();
+    match sys.step(w, &mut cx) {
+        Polled::Pending => {
+            ws[w].mode = Mode::Asleep;
+            ws[w].seen = before;
+            out.pending_polls += 1;
+            out.trace.push_str(&format!("{label}{w}:P "));
+        }
+        Polled::Ready(tag) => {
+            ws[w].mode = Mode::Fresh;
+            sys.restart(w);
+            out.ready_polls += 1;
+            out.trace.push_str(&format!("{label}{w}:R({tag}) "));
+        }
+        Polled::Continue => {
+            ws[w].mode = Mode::Running;
+            out.trace.push_str(&format!("{label}{w}:c "));
+        }
+    }
+}
+
+pub fn run_schedule(def: &'static ProtoDef, nw: usize, evs: &[Ev]) -> Outcome {
+    let mut out = Outcome::default();
+    let mut sys = match (def.make)(def, nw) {
+        Ok(s) => s,
+        Err(e) => {
+            out.harness = Some(format!("{}: setup failed: {e}", def.name));
+            return out;
+        }
+    };
+    let mut ws: Vec<Waiter> = (0..nw).map(|_| Waiter::new()).collect();
+    let mut slept = false;
+    // waiters already reported by the close clause: their later probe would restate the same defect
+    let mut flagged = vec![false; nw];
+    for (ei, e) in evs.iter().enumerate() {
+        match *e {
+            Ev::P(w) | Ev::S(w) => {
+                let w = w as usize;
+                let spurious = matches!(e, Ev::S(_));
+                if ws[w].asleep_unwoken() {
+                    if !spurious {
+                        out.skipped_polls += 1;
+                        out.trace.push_str(&format!("p{w}:- "));
+                        continue;
+                    }
+                    out.spurious_polls += 1;
+                }
+                one_step(sys.as_mut(), &mut ws, w, &mut out, if spurious { "s" } else { "p" });
+                if ws[w].mode == Mode::Asleep {
+                    slept = true;
+                }
+            }
+            Ev::D(w) => {
+                let w = w as usize;
+                sys.restart(w);
+                ws[w].mode = Mode::Fresh;
+                out.trace.push_str(&format!("d{w} "));
+            }
+            Ev::N(o) => {
+                let sleepers: Vec<usize> = (0..nw).filter(|&w| ws[w].asleep_unwoken()).collect();
+                let counts: Vec<usize> = ws.iter().map(|w| w.count()).collect();
+                let name = def.ops[o as usize].name;
+                match sys.apply(o as usize) {
+                    Applied::Noop => {
+                        out.ops_noop += 1;
+                        out.trace.push_str(&format!("n:{name}:- "));
+                    }
+                    Applied::Done => {
+                        out.ops_applied += 1;
+                        out.trace.push_str(&format!("n:{name} "));
+                        if !sleepers.is_empty() {
+                            out.nontrivial = true;
+                        }
+                    }
+                    Applied::Closed(mask) => {
+                        out.ops_applied += 1;
+                        out.trace.push_str(&format!("n:{name}! "));
+                        if !sleepers.is_empty() {
+                            out.nontrivial = true;
+                        }
+                        for &w in &sleepers {
+                            if mask & (1 << w) == 0 {
+                                continue;
+                            }
+                            out.close_checks += 1;
+                            if ws[w].count() == counts[w] {
+                                out.violations.push((
+                                    "close-no-wake",
+                                    format!(
+                                        "waiter {w} was asleep with its waker registered when `{name}` closed/failed the object and its waker was not invoked; trace: {}",
+                                        out.trace
+                                    ),
+                                    ei + 1,
+                                ));
+                                flagged[w] = true;
+                            }
+                        }
+                    }
+                }
+                for (w, c) in counts.iter().enumerate() {
+                    out.wakes += (ws[w].count() - c) as u64;
+                }
+            }
+        }
+    }
+    let _ = slept;
+    // --- quiescence: everything that is runnable runs (bounded rounds) -------------------------------
+    for _round in 0..4 {
+        let mut progressed = false;
+        for w in 0..nw {
+            let runnable = ws[w].mode == Mode::Running || (ws[w].mode == Mode::Asleep && ws[w].count() != ws[w].seen);
+            if !runnable {
+                continue;
+            }
+            let was_woken = ws[w].mode == Mode::Asleep;
+            progressed = true;
+            out.settle_steps += 1;
+            match run_poll(sys.as_mut(), &mut ws, w, &mut out, "q") {
+                Some(true) => {
+                    if was_woken {
+                        out.woken_then_ready += 1;
+                    }
+                }
+                Some(false) => {
+                    if was_woken {
+                        out.woken_then_pending += 1;
+                    }
+                }
+                None => {
+                    out.harness = Some(format!("{}: waiter {w} did not settle within {STEP_CAP} micro-steps; trace: {}", def.name, out.trace));
+                    return out;
+                }
+            }
+        }
+        if !progressed {
+            break;
+        }
+    }
+    // --- probe-poll ------------------------------------------------------------------------------------
+    for w in 0..nw {
+        if !ws[w].asleep_unwoken() {
+            continue;
+        }
+        out.probes += 1;
+        let model = sys.model_satisfied(w);
+        sys.restart(w);
+        let trace_before = out.trace.clone();
+        match run_poll(sys.as_mut(), &mut ws, w, &mut out, "probe") {
+            Some(true) if flagged[w] => {}
+            Some(true) => {
+                out.violations.push((
+                    "lost-wakeup",
+                    format!(
+                        "waiter {w} was asleep, its waker was never invoked after its last Pending, yet a probe poll returns Ready: the condition was satisfied while nobody was going to wake the task; trace: {}=> {}",
+                        trace_before,
+                        &out.trace[trace_before.len()..]
+                    ),
+                    evs.len(),
+                ));
+            }
+            Some(false) => {
+                out.probes_pending += 1;
+                if model == Some(true) && !flagged[w] {
+                    out.violations.push((
+                        "lost-notification",
+                        format!(
+                            "waiter {w} is asleep, its waker was never invoked and its probe poll is Pending although a signal it waits for was raised after it went to sleep: the notification never reached it; trace: {}",
+                            out.trace
+                        ),
+                        evs.len(),
+                    ));
+                }
+            }
+            None => {
+                out.harness = Some(format!("{}: probe of waiter {w} did not settle; trace: {}", def.name, out.trace));
+                return out;
+            }
+        }
+    }
+    out
+}
+
+fn replay_json(def: &ProtoDef, nw: usize, evs: &[Ev]) -> Value {
+    json!({"kind": "c16", "leg": "sched", "proto": def.name, "waiters": nw, "events": evs.iter().map(|e| ev_to_json(def, e)).collect::<Vec<_>>()})
+}
+
+fn sig_name(def: &ProtoDef, nw: usize) -> String {
+    if nw > 1 { format!("{}.{}w", def.name, nw) } else { def.name.to_string() }
+}
+
+/// Run one schedule under the panic recorder and book everything into the report.
+fn exec(rep: &mut Report, def: &'static ProtoDef, nw: usize, evs: &[Ev], mode: &str, seen: &mut HashSet<u64>) {
+    let r = vcore::panics::catch(|| run_schedule(def, nw, evs));
+    rep.evaluations += 1;
+    let pname = sig_name(def, nw);
+    rep.add(&format!("sched.{pname}"), 1);
+    let out = match r {
+        Ok(o) => o,
+        Err(p) => {
+            let loc = vcore::panics::short_location(&p.location);
+            rep.violation(
+                format!("C16.panic:{pname}:{loc}"),
+                format!("library panicked on a legal {mode} schedule of `{pname}`: {} at {loc}", p.message),
+                replay_json(def, nw, evs),
+            );
+            return;
+        }
+    };
+    if let Some(h) = &out.harness {
+        rep.inconclusive(h.clone());
+        rep.count("harness_trouble");
+        return;
+    }
+    rep.add("polls_pending", out.pending_polls);
+    rep.add("polls_ready", out.ready_polls);
+    rep.add("polls_skipped_task_asleep", out.skipped_polls);
+    rep.add("polls_spurious", out.spurious_polls);
+    rep.add("waker_invocations_observed", out.wakes);
+    rep.add("notifier_ops_applied", out.ops_applied);
+    rep.add("notifier_ops_precondition_false", out.ops_noop);
+    rep.add("close_checks", out.close_checks);
+    rep.add("probe_polls", out.probes);
+    rep.add("probe_polls_pending_condition_unsatisfied", out.probes_pending);
+    rep.add("woken_then_ready", out.woken_then_ready);
+    rep.add("woken_then_pending_again", out.woken_then_pending);
+    let h = vcore::fnv_str(&format!("{pname}|{}", out.trace));
+    if seen.insert(h) {
+        rep.add(&format!("distinct_traces.{pname}"), 1);
+    }
+    if out.nontrivial {
+        rep.distinct(h);
+    }
+    // abstract state: protocol + the outcome letters only (no tags)
+    let shape: String = out.trace.split(' ').map(|t| t.split('(').next().unwrap_or("")).collect::<Vec<_>>().join(" ");
+    rep.set("trace_shapes", vcore::fnv_str(&format!("{pname}|{shape}")));
+    for (clause, what, upto) in &out.violations {
+        rep.add(&format!("{clause}.{pname}"), 1);
+        rep.violation(format!("C16.{clause}:{pname}"), format!("{mode} schedule: {what}"), replay_json(def, nw, &evs[..*upto]));
+    }
+    if out.violations.is_empty() && out.nontrivial && rep.samples.len() < 4 && rep.evaluations % 997 == 3 {
+        rep.sample(json!({"proto": pname, "mode": mode, "trace": out.trace}));
+    }
+}
+
+/// All sequences over (waiter events ∪ legal notifier ops) with at most `maxp` waiter events and
+/// at most `maxn` notifier ops, in order of increasing length; `f(events)`.
+fn enumerate(def: &'static ProtoDef, nw: usize, maxp: usize, maxn: usize, f: &mut dyn FnMut(&[Ev])) {
+    let mut alphabet_w = vec![];
+    for w in 0..nw as u8 {
+        alphabet_w.push(Ev::P(w));
+        alphabet_w.push(Ev::S(w));
+        if def.drop_in_exhaustive {
+            alphabet_w.push(Ev::D(w));
+        }
+    }
+    fn rec(
+        def: &'static ProtoDef,
+        nw: usize,
+        aw: &[Ev],
+        target: usize,
+        maxp: usize,
+        maxn: usize,
+        cur: &mut Vec<Ev>,
+        done: &mut Vec<u8>,
+        np: usize,
+        f: &mut dyn FnMut(&[Ev]),
+    ) {
+        if cur.len() == target {
+            if nw > 1 {
+                // the multi-waiter run only adds schedules in which every waiter polls
+                for w in 0..nw as u8 {
+                    if !cur.iter().any(|e| matches!(e, Ev::P(x) | Ev::S(x) if *x == w)) {
+                        return;
+                    }
+                }
+            }
+            f(cur);
+            return;
+        }
+        if np < maxp {
+            for e in aw {
+                // a drop event is only meaningful after a poll of that waiter
+                if let Ev::D(w) = e {
+                    if !cur.iter().any(|x| matches!(x, Ev::P(y) | Ev::S(y) if y == w)) {
+                        continue;
+                    }
+                }
+                cur.push(*e);
+                rec(def, nw, aw, target, maxp, maxn, cur, done, np + 1, f);
+                cur.pop();
+            }
+        }
+        if done.len() < maxn {
+            for o in 0..def.ops.len() as u8 {
+                if !(def.legal)(done, o) {
+                    continue;
+                }
+                cur.push(Ev::N(o));
+                done.push(o);
+                rec(def, nw, aw, target, maxp, maxn, cur, done, np, f);
+                done.pop();
+                cur.pop();
+            }
+        }
+    }
+    for target in 1..=(maxp + maxn) {
+        rec(def, nw, &alphabet_w, target, maxp, maxn, &mut vec![], &mut vec![], 0, f);
+    }
+}
+
+fn gen_random(def: &'static ProtoDef, nw: usize, rng: &mut Rng) -> Vec<Ev> {
+    let len = rng.range(5, 16) as usize;
+    let mut evs = vec![];
+    let mut done: Vec<u8> = vec![];
+    let notifier_weight = rng.range(2, 6);
+    for _ in 0..len {
+        if rng.below(10) < notifier_weight {
+            let legal: Vec<u8> = (0..def.ops.len() as u8).filter(|&o| (def.legal)(&done, o)).collect();
+            if !legal.is_empty() {
+                let o = *rng.pick(&legal);
+                done.push(o);
+                evs.push(Ev::N(o));
+                continue;
+            }
+        }
+        let w = rng.below(nw as u64) as u8;
+        evs.push(match rng.below(12) {
+            0 | 1 => Ev::S(w),
+            2 => Ev::D(w),
+            _ => Ev::P(w),
+        });
+    }
+    evs
+}
+
+fn find_def(name: &str) -> Option<&'static ProtoDef> {
+    all_protocols().into_iter().find(|d| d.name == name)
+}
+
+pub fn run(args: &Args, rep: &mut Report) {
+    rep.rule = "schedule = sequence of waiter polls (normal / spurious / drop) and legal notifier operations on one fresh \
+                instance of a waiter/notifier protocol; distinct = distinct executed traces (protocol, every poll result, \
+                every op); non-trivial = some waiter was asleep (last poll Pending, waker not invoked) when a notifier \
+                operation was applied"
+        .into();
+    if let Some(path) = args.get("replay") {
+        let v: Value = serde_json::from_str(&std::fs::read_to_string(path).unwrap()).unwrap();
+        let v = if v.get("replay").is_some() { v["replay"].clone() } else { v };
+        if v["leg"].as_str() == Some("threads") {
+            th::replay(&v, rep);
+            return;
+        }
+        let Some(def) = v["proto"].as_str().and_then(find_def) else {
+            rep.inconclusive(format!("replay names unknown protocol {:?}", v["proto"]));
+            return;
+        };
+        let nw = v["waiters"].as_u64().unwrap_or(1) as usize;
+        let evs: Option<Vec<Ev>> = v["events"].as_array().map(|a| a.iter().map(|e| ev_from_json(def, e)).collect()).unwrap_or(None);
+        let Some(evs) = evs else {
+            rep.inconclusive("replay has an unknown event (op renamed?)");
+            return;
+        };
+        exec(rep, def, nw, &evs, "replayed", &mut HashSet::new());
+        return;
+    }
+    let thorough = args.get("tier") == Some("thorough");
+    let shard = args.u64("shard", 0);
+    let shards = args.u64("shards", 1).max(1);
+    if args.get("leg") == Some("threads") {
+        th::run(args, rep, thorough, shard);
+        return;
+    }
+    let only = args.get("proto");
+    let protos: Vec<&'static ProtoDef> = all_protocols().into_iter().filter(|d| only.is_none_or(|o| d.name.starts_with(o))).collect();
+    rep.max("max_protocols", protos.len() as u64);
+    let mut seen = HashSet::new();
+    // ---- exhaustive: all merges of <= 3 waiter events with <= 3 legal notifier ops -----------------------
+    let mut idx: u64 = 0;
+    for def in &protos {
+        for nw in 1..=def.max_waiters {
+            // the second waiter multiplies the alphabet; quick tier bounds 2-waiter schedules to 3+2
+            let (maxp, maxn) = if nw == 1 || thorough { (3, 3) } else { (3, 2) };
+            let mut list: Vec<Vec<Ev>> = vec![];
+            enumerate(def, nw, maxp, maxn, &mut |evs| {
+                if idx % shards == shard {
+                    list.push(evs.to_vec());
+                }
+                idx += 1;
+            });
+            for evs in &list {
+                exec(rep, def, nw, evs, "exhaustive", &mut seen);
+            }
+            rep.add("exhaustive_schedules", list.len() as u64);
+        }
+    }
+    rep.exhaustive = Some(true);
+    rep.add("max_exhaustive_waiter_events", 3);
+    rep.add("max_exhaustive_notifier_ops", 3);
+    // ---- random longer schedules (every prefix that ends in a notifier op is checked too) -----------------
+    let n = args.budget(if thorough { 3000 } else { 300 });
+    let mut rng = Rng::new(args.seed() ^ 0xc16).fork(shard);
+    for def in &protos {
+        for nw in 1..=def.max_waiters {
+            let mut prng = rng.fork(vcore::fnv_str(def.name) ^ nw as u64);
+            for _ in 0..n {
+                let evs = gen_random(def, nw, &mut prng);
+                exec(rep, def, nw, &evs, "random", &mut seen);
+                rep.count("random_schedules");
+                for cut in 1..evs.len() {
+                    if matches!(evs[cut - 1], Ev::N(_)) {
+                        exec(rep, def, nw, &evs[..cut], "random-prefix", &mut seen);
+                        rep.count("random_prefix_schedules");
+                    }
+                }
+            }
+        }
+    }
 }
